@@ -629,6 +629,20 @@ def c10B (a : List String) (t : BOp) : List String :=
         [s!"site={site} reason=transfer-too-long got={(lens.map (·.1)).foldl max 0} want=<=4096"])
     | _ => []
 
+/-- the opcodes a trace frames as commands (both D/C lines low), in order -/
+def cmdSeq (evs : List BEv) : Bytes :=
+  evs.flatMap fun e => match e with | .w _ 0 _ bs => bs | _ => []
+
+/-- every opcode the call's program sends as a command arrives framed as a command, in order (and
+    nothing else does): the implementation's command sequence against the model program's -/
+def c10Cmds (ops : List (List String)) (model impl : List BOp) : List String :=
+  let rec go : List (List String) → List BOp → List BOp → Nat → List String → List String
+    | a :: as, m :: ms, i :: is, k, acc =>
+      let bad := m.res == .ok ∧ i.res == .ok ∧ cmdSeq m.evs ≠ cmdSeq i.evs
+      go as ms is (k + 1) (if bad then acc ++ [s!"site=epd12in48b_v2/{a.headD "?"} reason=command-framing-differs got={hexOf ((cmdSeq i.evs).take 12)}/{(cmdSeq i.evs).length} want={hexOf ((cmdSeq m.evs).take 12)}/{(cmdSeq m.evs).length} op={k}"] else acc)
+    | _, _, _, _, acc => acc
+  go ops model impl 0 []
+
 def c10Verdicts (sc : Scenario) (t : List BOp) : Nat × List String :=
   let rec go : List (List String) → List BOp → Nat → Nat → List String → Nat × List String
     | a :: as, o :: os, k, n, acc => go as os (k + 1) (n + 1) (acc ++ (c10B a o).map (· ++ s!" op={k}"))
@@ -675,5 +689,118 @@ def suffixDigest (t : List BOp) (from_ : Nat) : String :=
     let acc := (canonB o.evs).foldl (fun a e => mixStr a (BEv.show e)) acc
     mixStr (mixStr acc o.res.toString) o.pins) (14695981039346656037 : UInt64)
   s!"ops={ops.length} trace={String.ofList (Nat.toDigits 16 h.toNat)}"
+
+end EpdVerif.Big
+
+namespace EpdVerif.Big
+open EpdVerif
+
+/-! ## the 12.48in driver under C01, C06, C09 and C11 (the properties name it) -/
+
+/-- C01: a full-frame write delivers the frame (the tiling oracle on `write_data1/2`) -/
+def c01B (a : List String) (t : BOp) : List String :=
+  if a.headD "" == "d1" ∨ a.headD "" == "d2" then c15 a t else []
+
+/-- C06: a partial write programs the requested window on every sub-display and fills it exactly
+    once (the tiling oracle on `write_data1/2_partial`) -/
+def c06B (a : List String) (t : BOp) : List String :=
+  if a.headD "" == "d1p" ∨ a.headD "" == "d2p" then c15 a t else []
+
+/-- per-chip power / initialisation / sleep flags, chips indexed 0..3 = M1, S1, M2, S2 -/
+structure ChipSt where
+  powered : Bool := false
+  res : Bool := false        -- resolution programmed since the last reset
+  panel : Bool := false      -- panel setting programmed since the last reset
+  asleep : Bool := false
+  deriving Repr, Inhabited
+
+def updChips (st : List ChipSt) (mask : Nat) (f : ChipSt → ChipSt) : List ChipSt :=
+  (List.range 4).map fun k => let c := st.getD k {}; if mask / 2 ^ k % 2 = 1 then f c else c
+
+/-- C09: every DisplayRefresh reaches only chips that are awake, initialised since their last
+    hardware reset, and powered on -/
+def c09Scan (ops : List (List String)) (t : List BOp) : Nat × List String := Id.run do
+  let mut st : List ChipSt := [{}, {}, {}, {}]
+  let mut out : List String := []
+  let mut n := 0
+  let mut k := 0
+  let mut lastCmd : Nat := 0x100
+  let mut lastCs : Nat := 0
+  for o in t do
+    let site := s!"epd12in48b_v2/{(ops.getD k []).headD "?"}"
+    let mut low : List Bool := [false, false]
+    for e in canonB o.evs do
+      match e with
+      | .rst line lvl =>
+        if !lvl then low := low.set line true
+        else if low.getD line false then
+          low := low.set line false
+          st := updChips st (if line = 0 then 3 else 12) fun _ => {}
+      | .w cs 0 _ bytes =>
+        for c in bytes do
+          lastCmd := c.toNat
+          lastCs := cs
+          if c = 0x04 then st := updChips st cs fun x => { x with powered := true }
+          else if c = 0x02 then st := updChips st cs fun x => { x with powered := false }
+          else if c = 0x61 then st := updChips st cs fun x => { x with res := true }
+          else if c = 0x00 then st := updChips st cs fun x => { x with panel := true }
+          else if c = 0x12 then
+            n := n + 1
+            for j in List.range 4 do
+              if cs / 2 ^ j % 2 = 1 then
+                let x := st.getD j {}
+                if x.asleep then out := out ++ [s!"site={site} reason=refresh-asleep got=chip{j}:asleep want=awake op={k}"]
+                else if !(x.res ∧ x.panel) then out := out ++ [s!"site={site} reason=refresh-uninitialised got=chip{j}:not-initialised-since-reset want=initialised op={k}"]
+                else if !x.powered then out := out ++ [s!"site={site} reason=refresh-unpowered got=chip{j}:power-off want=power-on op={k}"]
+      | .w cs 3 _ bytes =>
+        -- DeepSleep takes effect with its check code: data byte 0xA5 right after command 0x07
+        if lastCmd = 0x07 ∧ bytes.head? = some 0xA5 then
+          st := updChips st (cs % 16 &&& lastCs % 16) fun x => { x with asleep := true, powered := false }
+        lastCmd := 0x100
+      | _ => pure ()
+    k := k + 1
+  return (n, out.eraseDups)
+
+/-- C11: `reset()` gives BOTH reset lines a well-formed pulse — high, low for a non-zero time,
+    high, non-zero settle — with no bus traffic meanwhile -/
+def c11B (a : List String) (t : BOp) : List String :=
+  if a.headD "" ≠ "reset" then [] else
+  let site := "epd12in48b_v2/reset"
+  let bus := t.evs.any fun e => match e with | .w .. => true | .read .. => true | _ => false
+  let lineOk (line : Nat) : Option String := Id.run do
+    -- phases: 0 want high, 1 high (waiting for low), 2 low (need delay), 3 low + delayed (want high),
+    --         4 high again (need settle), 5 done
+    let mut ph := 0
+    let mut waited := false
+    for e in t.evs do
+      match e with
+      | .rst l lvl =>
+        if l = line then
+          if lvl then
+            if ph = 0 then ph := 1
+            else if ph = 2 then return some "released-without-low-time"
+            else if ph = 3 then ph := 4; waited := false
+          else
+            if ph = 1 then ph := 2; waited := false
+            else if ph = 0 then return some "low-without-initial-high"
+            else if ph ≥ 4 then return some "second-pulse"
+      | .delay _ n =>
+        if n > 0 then
+          if ph = 2 then ph := 3
+          else if ph = 4 then ph := 5
+      | _ => pure ()
+    if ph = 5 then return none
+    else if ph = 4 then return some "no-settle-time"
+    else return some s!"incomplete-pulse-phase{ph}"
+  (if bus then [s!"site={site} reason=bus-traffic-during-reset got=transfer want=none"] else []) ++
+  ([0, 1].filterMap fun l => (lineOk l).map fun why => s!"site={site} reason=malformed-pulse got=line{l}:{why} want=high-low-high-settle")
+
+def perOpVerdicts (f : List String → BOp → List String) (sc : Scenario) (t : List BOp) : Nat × List String :=
+  let rec go : List (List String) → List BOp → Nat → Nat → List String → Nat × List String
+    | a :: as, o :: os, k, n, acc =>
+      let r := f a o
+      go as os (k + 1) (n + 1) (acc ++ r.map (· ++ s!" op={k}"))
+    | _, _, _, n, acc => (n, acc)
+  go sc.ops t 0 0 []
 
 end EpdVerif.Big
